@@ -164,6 +164,13 @@ fn replay(path: &str) -> ! {
             let o = run_case(&x);
             println!("round {r}: run(\"{}\") -> {} allocation calls", show(&x), o.allocs);
             bad[r] = o.allocs != 0;
+        } else if w["engine"] == "run-lexi" {
+            let x = unhex(w["input"].as_str().unwrap());
+            let mut m = mc::ifaces::Lexi;
+            let mut wr: heapless::Vec<u8, 64> = heapless::Vec::new();
+            let o = run_on(&mut m, &x, &mut wr, Pattern::NONE);
+            println!("round {r}: run(\"{}\") on Lexi -> {} allocation calls", show(&x), o.allocs);
+            bad[r] = o.allocs != 0;
         } else if w["engine"] == "process" {
             let s = unhex(w["stream"].as_str().unwrap());
             let n = w["n"].as_u64().unwrap() as usize;
@@ -271,11 +278,46 @@ fn main() {
         skipped += sk;
     }
 
+    // headers with mnemonics of 1..=40 characters (declared and undeclared, both cases) on the
+    // interface with long declared mnemonics
+    let mut hdr_execs = 0u64;
+    {
+        use mc::ifaces::Lexi;
+        let mut inputs: Vec<Vec<u8>> = vec![];
+        for len in 1..=40usize {
+            for ch in [b'T', b't'] {
+                let m: Vec<u8> = std::iter::repeat(ch).take(len).collect();
+                let ms = String::from_utf8(m).unwrap();
+                for f in [format!("{ms}\n"), format!("{ms}?\n"), format!("SYST:{ms} 1\n"), format!("*{ms}\n"), format!(":{ms}:{ms};{ms}\n"), format!("SYST:VAL 1;{ms}?\n")] {
+                    inputs.push(f.into_bytes());
+                }
+            }
+        }
+        for f in [
+            "CALIBRATION:TEMPERATURECOMPENSATION 7\n", "calibration:temperaturecompensation 7\n", "CAL:TC?\n", "cal:tc 1;TemperatureCompensation?\n",
+            "Calibration:TemperatureCompensatio?\n", "CALIBRATION:TEMPERATURECOMPENSATIONS 1\n", "sour:volt:lev 1.5;level?\n", "MEASURE:DATA 'a',#11x,ON\n",
+        ] {
+            inputs.push(f.as_bytes().to_vec());
+        }
+        for x in &inputs {
+            let mut m = Lexi;
+            let mut w: heapless::Vec<u8, 64> = heapless::Vec::new();
+            let o = run_on(&mut m, x, &mut w, Pattern::NONE);
+            hdr_execs += 1;
+            if o.end == End::Returned && o.allocs != 0 {
+                let f = vec![("engine", "run-long-mnemonics".to_string())];
+                out.groups.add("no-allocation", &f, (x.len(), x), || {
+                    (json!({"engine": "run-lexi", "input": hex(x)}), format!("run(\"{}\") on the Lexi interface: {} heap allocation calls", show(x), o.allocs))
+                });
+            }
+        }
+    }
+
     // response value tables
     let mut resp_execs = 0u64;
     response_table(&mut out.groups, &mut resp_execs);
 
-    let total = lex_execs + proc_execs + resp_execs;
+    let total = lex_execs + proc_execs + resp_execs + hdr_execs;
     out.cov("states", total);
     out.cov("transitions", total);
     out.cov("traces_validated_against_impl", total);
@@ -289,6 +331,7 @@ fn main() {
         "bounds",
         json!({"lex_run": {"alphabet": lex::sigma_json(), "max_tokens": lex_len, "writer": "heapless::Vec<u8,64>", "executions": lex_execs},
                "process": {"pool": POOL.iter().map(|m| show(m)).collect::<Vec<_>>(), "max_messages": k, "N": [16, 64], "chunkings": "all with <=2 cuts + one byte per read", "executions": proc_execs},
+               "long_mnemonics": {"lengths": "1..=40, both cases, declared mnemonics of 11 and 23 characters", "executions": hdr_execs},
                "write_response": {"values": resp_execs, "writer": "heapless::Vec<u8,512>", "types": "bool, all integer widths, f32/f64 (every sign/exponent x 3 mantissas), &str, heapless::String, Characters, Arbitrary, tuples, slices, heapless::Vec, Error, ()"}}),
     );
     out.cov("skipped_panics", skipped);
